@@ -55,6 +55,24 @@ def build(name):
         )
         mdg.replace_subdomains_and_interfaces(sd_map={sd1: line_grid(5)})
         return mdg
+    if name in ("mortarfine2d", "mortarcoarse2d", "secfine2d", "seccoarse2d"):
+        # nested refinements / coarsenings of one grid of the interface: then one of the
+        # int / avg matrices of a direction consists of ones only while the other does not
+        mdg = cart2d([FH], [4, 2] if "coarse" in name else [2, 2])
+        intf = mdg.interfaces()[0]
+        n = 2 if "coarse" in name else 4
+        if name.startswith("mortar"):
+            mdg.replace_subdomains_and_interfaces(interface_map={intf: {s: line_grid(n) for s in intf.side_grids}})
+        else:
+            mdg.replace_subdomains_and_interfaces(sd_map={mdg.subdomains(dim=1)[0]: line_grid(n)})
+        return mdg
+    if name == "x2d_mortarfine":
+        mdg = cart2d([FH, FV], [2, 2])
+        for intf in mdg.interfaces(dim=1):
+            _, sec = mdg.interface_to_subdomain_pair(intf)
+            if np.ptp(sec.nodes[1]) < 1e-12:  # the horizontal fracture
+                mdg.replace_subdomains_and_interfaces(interface_map={intf: {s: line_grid(4) for s in intf.side_grids}})
+        return mdg
     if name == "mockchain":
         return mock_chain()
     if name == "mockwells":
